@@ -115,6 +115,12 @@ impl Schedule {
         self.inner.is_empty()
     }
 
+    /// Read-only view of the ranges held by this schedule (verification only).
+    #[cfg(oh_verif)]
+    pub fn verif_ranges(&self) -> &[TimeRange] {
+        &self.inner
+    }
+
     /// Check if a schedule is always closed.
     pub(crate) fn is_always_closed(&self) -> bool {
         self.inner.iter().all(|rg| rg.kind == RuleKind::Closed)
@@ -132,6 +138,9 @@ impl Schedule {
 
     /// Insert a new time range in a schedule.
     fn insert(self, mut ins_tr: TimeRange) -> Self {
+        #[cfg(oh_verif)]
+        crate::verif_hooks::tick(crate::verif_hooks::Site::ScheduleInsert);
+
         // Build sets of intervals before and after the inserted interval
 
         let ins_start = ins_tr.range.start;
@@ -247,6 +256,9 @@ impl Iterator for IntoIter {
     type Item = TimeRange;
 
     fn next(&mut self) -> Option<Self::Item> {
+        #[cfg(oh_verif)]
+        crate::verif_hooks::tick(crate::verif_hooks::Site::ScheduleIter);
+
         if self.last_end >= ExtendedTime::MIDNIGHT_24 {
             // Iteration ended
             return None;
